@@ -6,7 +6,8 @@
 //!        actors come in pairs per connection: role 0 writer ops[0] = Op(W, total bytes, chunk),
 //!        role 1 reader ops[0] = Op(R, buffer size, 0); datagrams: total = count, chunk = size
 //! netto: cfg[0] = transport 0 UnixStream::pair, 2 TCP, 3 UDP; cfg[1] = 1: the reader is cancelled
-//!        after cfg[2] ns; actor 0 = reader ops = Op(READ, timeout us (0 = none), 0)...,
+//!        after cfg[2] ns; cfg[3] = k > 0: a successor continues from read k on the shared socket;
+//!        actor 0 = reader ops = Op(READ, timeout us (0 = none), 0)...,
 //!        actor 1 = peer ops = Op(SEND_AT, delay us after the matching read began | NEVER, 0)...,
 //!        further pairs = bystander connections (as in net)
 use crate::case::{Actor, Case, Op, Outcome};
@@ -421,6 +422,8 @@ pub fn run_netto(case: &Case) -> Outcome {
         .enumerate()
         .map(|(i, a)| format!("{}/{}", if i == 0 { "reader" } else if i == 1 { "peer" } else if a.role == 0 { "bystander-writer" } else { "bystander-reader" }, ctx_name(if i == 0 && cancel_reader { CO } else { a.ctx })))
         .collect();
+    let mut desc = desc;
+    desc.push(format!("successor/{}", ctx_name(case.actors[0].ctx)));
     let states = States::install(desc, opname);
     let reads = case.actors[0].ops.clone();
     let sends = case.actors[1].ops.clone();
@@ -429,7 +432,7 @@ pub fn run_netto(case: &Case) -> Outcome {
     let began: Arc<Vec<AtomicU64>> = Arc::new((0..n).map(|_| AtomicU64::new(0)).collect());
     let wrote: Arc<Vec<AtomicU64>> = Arc::new((0..n).map(|_| AtomicU64::new(0)).collect());
     #[allow(clippy::type_complexity)]
-    let results: Arc<Mutex<Vec<(i64, usize, u64, u64, u64)>>> = Arc::new(Mutex::new(vec![])); // (kind, bytes, vc, vr, tick)
+    let results: Arc<Mutex<Vec<Option<(i64, usize, u64, u64, u64)>>>> = Arc::new(Mutex::new(vec![None; n])); // (kind, bytes, vc, vr, tick)
     let rctx = if cancel_reader { CO } else { case.actors[0].ctx };
     let pctx = case.actors[1].ctx;
     // the connection under test
@@ -462,41 +465,62 @@ pub fn run_netto(case: &Case) -> Outcome {
         Sock::S(a, b) => ((Some(a), None), (Some(b), None)),
         Sock::U(a, b) => ((None, Some(a)), (None, Some(b))),
     };
-    let (began2, results2, st2) = (began.clone(), results.clone(), states.clone());
-    let reader = spawn(rctx, "reader", move || {
-        let _dg = DoneGuard(&st2, 0);
-        let (mut s, u) = rs;
-        let mut buf = [0u8; 64];
-        for (i, op) in reads.iter().enumerate() {
-            st2.enter(0, i, READ);
-            let d = if op.1 == 0 { None } else { Some(Duration::from_micros(op.1 as u64)) };
-            if let Some(s) = s.as_ref() {
-                s.set_read_timeout(d);
-            }
-            if let Some(u) = u.as_ref() {
-                u.set_read_timeout(d).unwrap();
-            }
-            let (vc, t0) = sched::now_tick();
-            began2[i].store(vc, Ordering::SeqCst);
-            let r = match (s.as_mut(), u.as_ref()) {
-                (Some(s), _) => s.read(&mut buf),
-                (_, Some(u)) => u.recv_from(&mut buf).map(|x| x.0),
+    // with a successor (cfg[3] = k > 0, at least two reads) the socket is shared: the first reader
+    // does reads ..k, a second reader continues on the same socket once the first has ended
+    // (normally or by cancel); otherwise the reader owns the socket and its end closes it
+    let split = if n >= 2 { (case.cfg(3).max(0) as usize).min(n - 1) } else { 0 };
+    type Socks = (Option<Stream>, Option<may::net::UdpSocket>);
+    let shared: Arc<Mutex<Option<Socks>>> = Arc::new(Mutex::new(Some(rs)));
+    let do_reads = {
+        let (began, results, states, shared, reads) = (began.clone(), results.clone(), states.clone(), shared.clone(), reads.clone());
+        move |actor: usize, from: usize, to: usize, own: bool| {
+            let mut owned: Option<Socks> = if own { shared.lock().unwrap_or_else(|e| e.into_inner()).take() } else { None };
+            let mut guard = if own { None } else { Some(shared.lock().unwrap_or_else(|e| e.into_inner())) };
+            let socks: &mut Socks = match (&mut owned, &mut guard) {
+                (Some(o), _) => o,
+                (_, Some(g)) => g.as_mut().unwrap(),
                 _ => unreachable!(),
             };
-            let (vr, t1) = sched::now_tick();
-            let (kind, bytes) = match r {
-                Ok(k) => (0, k),
-                Err(e) if matches!(e.kind(), std::io::ErrorKind::TimedOut | std::io::ErrorKind::WouldBlock) => (1, 0),
-                Err(_) => (2, 0),
-            };
-            results2.lock().unwrap().push((kind, bytes, vc, vr, t1 - t0));
-            st2.leave(0, i);
+            let (s, u) = (&mut socks.0, &socks.1);
+            let mut buf = [0u8; 64];
+            for (i, op) in reads.iter().enumerate().take(to).skip(from) {
+                states.enter(actor, i, READ);
+                let d = if op.1 == 0 { None } else { Some(Duration::from_micros(op.1 as u64)) };
+                if let Some(s) = s.as_ref() {
+                    s.set_read_timeout(d);
+                }
+                if let Some(u) = u.as_ref() {
+                    u.set_read_timeout(d).unwrap();
+                }
+                let (vc, t0) = sched::now_tick();
+                began[i].store(vc, Ordering::SeqCst);
+                let r = match (s.as_mut(), u.as_ref()) {
+                    (Some(s), _) => s.read(&mut buf),
+                    (_, Some(u)) => u.recv_from(&mut buf).map(|x| x.0),
+                    _ => unreachable!(),
+                };
+                let (vr, t1) = sched::now_tick();
+                let (kind, bytes) = match r {
+                    Ok(k) => (0, k),
+                    Err(e) if matches!(e.kind(), std::io::ErrorKind::TimedOut | std::io::ErrorKind::WouldBlock) => (1, 0),
+                    Err(_) => (2, 0),
+                };
+                results.lock().unwrap()[i] = Some((kind, bytes, vc, vr, t1 - t0));
+                states.leave(actor, i);
+            }
         }
+    };
+    let (st2, dr) = (states.clone(), do_reads.clone());
+    let first_to = if split > 0 { split } else { n };
+    let reader = spawn(rctx, "reader", move || {
+        let _dg = DoneGuard(&st2, 0);
+        dr(0, 0, first_to, split == 0);
     });
     let reader_co = reader.coroutine().cloned();
     let (began3, wrote3, st3) = (began.clone(), wrote.clone(), states.clone());
     let reader_done = Arc::new(std::sync::atomic::AtomicBool::new(false));
     let rd2 = reader_done.clone();
+    let expect_eof = cancel_reader && split == 0;
     let peer = spawn(pctx, "peer", move || {
         let _dg = DoneGuard(&st3, 1);
         let (mut s, u) = ps;
@@ -530,7 +554,7 @@ pub fn run_netto(case: &Case) -> Outcome {
         }
         // when the reader was cancelled the peer must see the end of the stream
         if let Some(s) = s.as_mut() {
-            if sends.iter().any(|o| o.2 == 1) {
+            if expect_eof {
                 s.set_read_timeout(Some(Duration::from_secs(5)));
                 let mut b = [0u8; 8];
                 // end of stream, or a reset if our byte was still unread when the other end was closed
@@ -566,6 +590,19 @@ pub fn run_netto(case: &Case) -> Outcome {
         }
     }
     let rend = reader.join();
+    let mut send = End::Ok(());
+    if split > 0 {
+        // the successor continues after the last read that was begun
+        let next = (0..n).rev().find(|&i| began[i].load(Ordering::SeqCst) != 0).map_or(0, |i| i + 1);
+        let (st4, dr) = (states.clone(), do_reads.clone());
+        let succ = case.actors.len();
+        let h = spawn(case.actors[0].ctx, "successor", move || {
+            let _dg = DoneGuard(&st4, succ);
+            dr(succ, next, n, false);
+        });
+        send = h.join();
+    }
+    drop(do_reads);
     reader_done.store(true, Ordering::SeqCst);
     sched::kick_idle();
     let pend = peer.join();
@@ -581,22 +618,32 @@ pub fn run_netto(case: &Case) -> Outcome {
         (e, _) => out.fail("reader-ended-abnormally", e.kind()),
     }
     let stalls = case.has_stall();
+    if !matches!(send, End::Ok(())) {
+        out.fail("successor-ended-abnormally", send.kind());
+    }
     let res = results.lock().unwrap().clone();
     let mut stale_window = false;
     let mut near = false;
-    for (i, (kind, bytes, vc, vr, tick)) in res.iter().enumerate() {
+    // a read that was cut by the cancel has no result
+    let unconsumed = |j: usize| res[j].map_or(true, |r| r.0 != 0);
+    let returned_at = |j: usize| res[j].map_or(u64::MAX, |r| r.3);
+    for (i, r) in res.iter().enumerate() {
+        let (kind, bytes, vc, vr, tick) = match r {
+            Some(r) => r,
+            None => continue,
+        };
         let d_us = case.actors[0].ops[i].1 as u64;
         let d = d_us * 1000;
         let el = vr - vc;
         let w = wrote[i].load(Ordering::SeqCst);
         // bytes written for earlier reads that timed out are still in the socket
-        let earlier_pending = (0..i).any(|j| wrote[j].load(Ordering::SeqCst) != 0 && res[j].0 != 0);
+        let earlier_pending = (0..i).any(|j| wrote[j].load(Ordering::SeqCst) != 0 && unconsumed(j));
         match kind {
             0 => {
                 if *bytes == 0 {
                     // end of stream although the peer has not closed
                     out.fail("read-returned-0-before-eof", format!("read {i}"));
-                } else if w == 0 && !earlier_pending && !(0..i).any(|j| wrote[j].load(Ordering::SeqCst) > res[j].3) {
+                } else if w == 0 && !earlier_pending && !(0..i).any(|j| wrote[j].load(Ordering::SeqCst) != 0 && wrote[j].load(Ordering::SeqCst) > returned_at(j)) {
                     out.fail("data-from-nowhere", format!("read {i}"));
                 }
             }
@@ -615,8 +662,10 @@ pub fn run_netto(case: &Case) -> Outcome {
         }
         // (lateness is not part of C18: a spurious readiness event re-arms the io timer)
         if i > 0 {
-            let prev_deadline = res[i - 1].2 + case.actors[0].ops[i - 1].1 as u64 * 1000;
-            if case.actors[0].ops[i - 1].1 != 0 && res[i - 1].0 == 0 && prev_deadline > *vc && prev_deadline < *vr {
+            // the previous read ended early (data or cancel) and its deadline falls into this one
+            let pb = began[i - 1].load(Ordering::SeqCst);
+            let prev_deadline = pb + case.actors[0].ops[i - 1].1 as u64 * 1000;
+            if pb != 0 && case.actors[0].ops[i - 1].1 != 0 && res[i - 1].map_or(true, |r| r.0 == 0) && prev_deadline > *vc && prev_deadline < *vr {
                 stale_window = true;
             }
         }
@@ -624,7 +673,7 @@ pub fn run_netto(case: &Case) -> Outcome {
             near = true;
         }
     }
-    if cancel_reader && matches!(rend, End::Cancel) && transport != 3 {
+    if expect_eof && matches!(rend, End::Cancel) && transport != 3 {
         if let End::Ok(eof) = pend {
             if !eof {
                 out.fail("peer-sees-no-eof-after-cancel", "the cancelled coroutine's socket was not closed".into());
@@ -642,8 +691,10 @@ pub fn run_netto(case: &Case) -> Outcome {
     });
     out.flag_if(stale_window, "previous_deadline_inside_next_op");
     out.flag_if(near, "data_within_1ms_of_deadline");
+    let res: Vec<_> = res.iter().flatten().collect();
     out.flag_if(res.iter().any(|r| r.0 == 1), "timeout_seen");
     out.flag_if(res.iter().any(|r| r.0 == 0), "data_seen");
+    out.flag_if(split > 0, "successor_on_shared_socket");
     out.flag_if(matches!(rend, End::Cancel), "reader_cancelled");
     out.flag_if(stalls, "stall_fault");
     out.flag_if(pre, "preempted");
@@ -684,8 +735,8 @@ pub fn strategy_net(g: &GenCfg) -> BoxedStrategy<Case> {
 pub fn strategy_netto(g: &GenCfg) -> BoxedStrategy<Case> {
     let g2 = g.clone();
     let d = || prop_oneof![3 => (1u32..20).prop_map(|ms| ms * 1000), 2 => 100u32..20_000, 1 => Just(0u32), 1 => (1u32..4).prop_map(|s| s * 1_000_000)];
-    (prop_oneof![3 => Just(0i64), 2 => Just(2i64), 1 => Just(3i64)], prop_oneof![3 => Just(0i64), 1 => Just(1i64)], 0i64..25_000_000, 0u8..2, 0u8..2)
-        .prop_flat_map(move |(transport, cancel, cdelay, rctx, pctx)| {
+    (prop_oneof![3 => Just(0i64), 2 => Just(2i64), 1 => Just(3i64)], prop_oneof![3 => Just(0i64), 1 => Just(1i64)], 0i64..25_000_000, 0u8..2, 0u8..2, prop_oneof![2 => Just(0u8), 1 => 1u8..4])
+        .prop_flat_map(move |(transport, cancel, cdelay, rctx, pctx, succ)| {
             let op = d().prop_flat_map(|t| {
                 // the peer sends never / early / around the deadline / late
                 let e = if t == 0 {
@@ -698,9 +749,9 @@ pub fn strategy_netto(g: &GenCfg) -> BoxedStrategy<Case> {
             let by = (0u8..2, 0u8..2, 0u32..40_000, 1u32..8_192, 1u32..8_192).prop_map(|(wc, rc, total, chunk, buf)| {
                 (Actor { ctx: wc, role: 0, ops: vec![Op(W, total, chunk.max(total / 100 + 1))] }, Actor { ctx: rc, role: 1, ops: vec![Op(R, buf.max(total / 100 + 1), 0)] })
             });
-            (Just((transport, cancel, cdelay, rctx, pctx)), proptest::collection::vec(op, 1..=4), proptest::collection::vec(by, 0..=2), gen::config(&g2), prop_oneof![3 => gen::schedule(&g2, false), 1 => gen::schedule(&g2, true)])
+            (Just((transport, cancel, cdelay, rctx, pctx, succ)), proptest::collection::vec(op, 1..=4), proptest::collection::vec(by, 0..=2), gen::config(&g2), prop_oneof![3 => gen::schedule(&g2, false), 1 => gen::schedule(&g2, true)])
         })
-        .prop_map(|((transport, cancel, cdelay, rctx, pctx), ops, bys, (workers, pool, feat), sched)| {
+        .prop_map(|((transport, cancel, cdelay, rctx, pctx, succ), ops, bys, (workers, pool, feat), sched)| {
             let mut reads = vec![];
             let mut sends = vec![];
             for (t, e) in ops {
@@ -708,8 +759,12 @@ pub fn strategy_netto(g: &GenCfg) -> BoxedStrategy<Case> {
                 sends.push(Op(SEND_AT, e, cancel as u32));
             }
             // an untimed read needs its byte unless the reader gets cancelled
-            for (r, s) in reads.iter().zip(sends.iter_mut()) {
-                if r.1 == 0 && s.1 == NEVER && cancel == 0 {
+            let n = reads.len();
+            let split = if n >= 2 { (succ as usize).min(n - 1) } else { 0 };
+            for (i, (r, s)) in reads.iter().zip(sends.iter_mut()).enumerate() {
+                // (the successor is never cancelled and continues wherever the first reader stopped)
+                let _ = i;
+                if r.1 == 0 && s.1 == NEVER && (cancel == 0 || split > 0) {
                     s.1 = 500;
                 }
             }
@@ -718,7 +773,7 @@ pub fn strategy_netto(g: &GenCfg) -> BoxedStrategy<Case> {
                 actors.push(w);
                 actors.push(r);
             }
-            Case { fam: "netto".into(), workers, pool, feat, cfg: vec![transport, cancel, cdelay], actors, sched }
+            Case { fam: "netto".into(), workers, pool, feat, cfg: vec![transport, cancel, cdelay, succ as i64], actors, sched }
         })
         .boxed()
 }
